@@ -247,7 +247,37 @@ print(data.hex(), str(i).strip()); print('  read set :', sorted(str(x) for x in 
 kind, _, nm = what.partition(':')
 names_r = set(x.name for x in R if isinstance(x, X.ExprId)); names_w = set(x.name for x in W if isinstance(x, X.ExprId))
 bad = False
+ran = 0
 rnd = random.Random(1)
+def by_reference():
+    # the CPU could not run the instruction in the test window (16-bit addressing, privileged ...): confirm on the reference
+    # semantics (itself validated against the CPU) with the same query as the check
+    from vf import ir2smt
+    from vf.x86spec import sem as SPEC
+    import miasmx.arch.ia32_arch as A
+    c = ir2smt.Ctx(strict=False, flat=True); S = SPEC.Spec(c, z3.BitVecVal(i.l, 32))
+    SPEC.sem(i.m.name, S, i.arg_expr, {'opsize': 16 if i.opmode == A.u16 else 32, 'l': i.l})
+    sz = 1 if nm in cpu32.FLAG_BITS else 32
+    s = z3.Solver(); s.set('timeout', 60000)
+    for a_ in S.assume: s.add(a_)
+    if kind == 'omitted-write':
+        if (nm, sz) not in S.post: return False
+        pre = c.ids.get((nm, sz))
+        if pre is None: pre = z3.BitVec('fresh_' + nm, sz)
+        s.add(S.defined.get((nm, sz), z3.BoolVal(True))); s.add(S.post[(nm, sz)] != pre)
+        return s.check() == z3.sat
+    pre = c.ids.get((nm, sz))
+    if pre is None: return False
+    alt = z3.BitVec(nm + '_alt', sz)
+    sub = lambda t: z3.substitute(t, (pre, alt))
+    for a_ in S.assume: s.add(sub(a_))
+    ds = []
+    for k_, t in S.post.items():
+        if k_[0] == nm: continue
+        d_ = S.defined.get(k_, z3.BoolVal(True))
+        ds.append(z3.And(d_, sub(d_), t != sub(t)))
+    s.add(z3.Or(*ds)) if ds else s.add(False)
+    return s.check() == z3.sat
 def state():
     regs = dict((r, rnd.getrandbits(32)) for r in cpu32.REGS)
     for r in ('esp', 'ebp', 'esi', 'edi', 'ebx', 'eax', 'ecx', 'edx'):
@@ -264,6 +294,7 @@ if kind == 'omitted-read' and nm not in names_r:
         else: regs2[nm] ^= 1 << rnd.randrange(0, 5)
         r2 = cpu32.run(data[:i.l], regs2, flags2, window)
         if r1.get('fault') or r2.get('fault'): continue
+        ran += 1
         o1 = dict(r1['regs']); o1.update(r1['flags']); o2 = dict(r2['regs']); o2.update(r2['flags'])
         diff = [k for k in o1 if o1[k] != o2[k] and k != nm] + (['mem'] if r1['window'] != r2['window'] else [])
         if diff: bad = True; print('CPU: changing only', nm, 'changes', diff); break
@@ -273,9 +304,13 @@ elif kind == 'omitted-write' and nm not in names_w:
         window = dict((k, rnd.getrandbits(8)) for k in range(0x700, 0xa00))
         r1 = cpu32.run(data[:i.l], regs, flags, window)
         if r1.get('fault'): continue
+        ran += 1
         before = flags.get(nm, regs.get(nm)); after = r1['flags'].get(nm, r1['regs'].get(nm))
         if before != after: bad = True; print('CPU:', nm, 'changes from', before, 'to', after); break
-elif kind == 'omitted-mem':
+if kind in ('omitted-read', 'omitted-write') and not bad and ran == 0 and nm not in (names_r if kind == 'omitted-read' else names_w):
+    bad = by_reference()
+    print('the CPU cannot run this form in the test window; reference semantics says:', 'dependency is real' if bad else 'no dependency')
+if kind == 'omitted-mem':
     # same criterion as the check: a memory operand the reference needs, and no ExprMem of the sets based on the same registers
     from vf import ir2smt
     from vf.x86spec import sem as SPEC
